@@ -224,7 +224,11 @@ def apply_config(s, spec, prob, which=None):
         elif item == "monitors":
             from mystic.monitors import Monitor
             if spec.get("evalmon", True):
-                s.SetEvaluationMonitor(Monitor())
+                em = Monitor()
+                for j in range(int(spec.get("evalmon_prefilled") or 0)):
+                    # a monitor that is shared with / reused from another run already holds records this solver did not write
+                    em([float(j)] * spec["dim"], 1000.0 + j)
+                s.SetEvaluationMonitor(em)
             if spec.get("stepmon"):
                 # True: a plain Monitor; a number: a Monitor with that cost multiplier k (transparent to the solver)
                 km = spec["stepmon"]
@@ -311,8 +315,12 @@ def run_trace(spec, seed):
                     # exactly what Step itself does first: (re)decorate the objective when needed, then
                     # resolve None/"*" limits and test the stop conditions at this moment
                     s._bootstrap_objective(prob.cost_fn)
-                    pre["terminated_msg"] = s.Terminated(info=True) or None
-                    pre["term_cond"] = bool(s._termination(s))
+                    # a termination handed to this Step (`Step(cost, termination=T)`) is registered BEFORE the stop test
+                    # (abstract_solver.py l.1097): the test that decides whether this iteration begins is made with T
+                    newT = make_termination(op[1]["termination"]) if (len(op) > 1 and op[1].get("termination") is not None) else None
+                    pre["new_termination"] = newT
+                    pre["terminated_msg"] = (s.Terminated(info=True, termination=newT) if newT is not None else s.Terminated(info=True)) or None
+                    pre["term_cond"] = bool((newT or s._termination)(s))
                     pre["maxiter"] = s._maxiter; pre["maxfun"] = s._maxfun; pre["earlyexit"] = bool(s._EARLYEXIT)
             if k == "step":
                 kw_step = dict(kw)
@@ -326,6 +334,10 @@ def run_trace(spec, seed):
                             kw_step["penalty"] = prob.penalty_fn(val) if val is not None else None
                         elif name == "extra":
                             kw_step["ExtraArgs"] = tuple(val)      # Step(cost, ExtraArgs=...): the arguments in force from now on
+                        elif name == "termination" and val is not None:
+                            kw_step["termination"] = (pre or {}).get("new_termination") or make_termination(val)
+                if pre is not None:
+                    pre.pop("new_termination", None)
                 ret = s.Step(prob.cost_fn, **kw_step)
             elif k == "solve":
                 ret = s.Solve(prob.cost_fn, **kw)
